@@ -259,7 +259,7 @@ def inject(base, i, ch):
     return base[:i] + ch + base[i:]
 
 
-bad_chars = st.one_of(st.sampled_from(["-", " ", "\n", "é", "/", "\0", "!", "٣", "Ａ", ":", "\t", "\\", "'", "(", "$", "​", "\U0001F600"]),
+bad_chars = gen.pick(st.sampled_from(["-", " ", "\n", "é", "/", "\0", "!", "٣", "Ａ", ":", "\t", "\\", "'", "(", "$", "​", "\U0001F600"]),
                       st.characters(blacklist_categories=("Cs",)).filter(lambda c: not VALID.match(c)))
 
 
@@ -278,7 +278,7 @@ def random_on_cases(draw):
         name = draw(st.text(min_size=1, max_size=12).filter(invalid_name))
     return {"name": name, "args": draw(st.sampled_from([[], {}, [1], {"a": 1}])), "depth": draw(st.integers(0, 4)),
             "side": draw(st.sampled_from(["load", "client", "server"])), "version": draw(st.sampled_from([1.0, 2.0])), "kind": kind,
-            "spell": draw(st.one_of(st.just(0), st.just(0), st.integers(1, 2 ** 13 - 1))),
+            "spell": draw(gen.pick(st.just(0), st.just(0), st.integers(1, 2 ** 13 - 1))),
             "prior": draw(st.sampled_from(PRIORS)), "outer": draw(st.sampled_from(OUTER_BEANS))}
 
 
@@ -297,9 +297,9 @@ def oracle_random_on(case):
 # ---------------------------------------------------------------------------
 # on: malformed descriptors
 
-descriptor_shapes = st.one_of(
+descriptor_shapes = gen.pick(
     gen.json_values(3),
-    st.lists(st.one_of(gen.json_values(2), st.sampled_from(CANARIES + ["decimal.Decimal", "", "bad name", "vcan-ary.Cls"])), max_size=3),
+    st.lists(gen.pick(gen.json_values(2), st.sampled_from(CANARIES + ["decimal.Decimal", "", "bad name", "vcan-ary.Cls"])), max_size=3),
     st.tuples(st.sampled_from(CANARIES + ["", "bad name", "vcan-ary.Cls", "vcanary.Cls "]), gen.json_values(2)).map(list),
 )
 
@@ -355,8 +355,8 @@ def oracle_malformed(case):
 
 @st.composite
 def off_cases(draw):
-    name = draw(st.one_of(st.sampled_from(CANARIES + ["decimal.Decimal", "vcanary.Missing", "nomodule_vf.X", "", "bad name"]), st.text(max_size=6)))
-    desc = draw(st.one_of(st.tuples(st.just(name), st.sampled_from([[], {}, ["1"], 5])).map(list), gen.json_values(2)))
+    name = draw(gen.pick(st.sampled_from(CANARIES + ["decimal.Decimal", "vcanary.Missing", "nomodule_vf.X", "", "bad name"]), st.text(max_size=6)))
+    desc = draw(gen.pick(st.tuples(st.just(name), st.sampled_from([[], {}, ["1"], 5])).map(list), gen.json_values(2)))
     d = draw(st.dictionaries(st.sampled_from(["x", "y"]), gen.json_values(2), max_size=2))
     d["__jsonclass__"] = desc
     payload = wrap_payload(d, draw(st.integers(0, 4)), draw(st.sampled_from(["list", "dict"])))
@@ -364,7 +364,7 @@ def off_cases(draw):
             "mc_config": draw(st.booleans()),
             "forced_version": draw(st.sampled_from([None, 1.0, 2.0])),
             "canary": isinstance(desc, list) and bool(desc) and desc[0] in CANARIES,
-            "spell": draw(st.one_of(st.just(0), st.integers(1, 2 ** 13 - 1)))}
+            "spell": draw(gen.pick(st.just(0), st.integers(1, 2 ** 13 - 1)))}
 
 
 def oracle_off(case):
